@@ -82,6 +82,41 @@ def run(chk, facts, tier):
                                     ok = False
                                     why = ('the instant is compared with the connection event counter by `%s`: both are 16 bit counters that wrap, an instant behind the wrap (counter 65500, instant 100) is taken for passed and the link is terminated; '
                                            'the test has to be made on the 16 bit difference (sign bit)' % x.text()[:60])
+                if ok:
+                    # which event the instant is measured from (frozen per procedure from the tree as confirmed: the connection update is compared with the NEXT event, because its
+                    # transmit window is applied one event before the instant; channel map and PHY update with the event the PDU was received in)
+                    REF = {'LL_CONNECTION_UPDATE_IND': 1, 'LL_CHANNEL_MAP_IND': 0, 'LL_PHY_UPDATE_IND': 0}
+                    def flat(n, sign=1):
+                        # (coefficient of the instant, coefficient of connection_event_counter(), constant) of a +/- expression
+                        n = deep(n)
+                        if n is None:
+                            return None
+                        if isinstance(n, int) or cval(n) is not None:
+                            return (0, 0, sign * (n if isinstance(n, int) else cval(n)))
+                        if is_name(n, 'defered_conn_event_counter_'):
+                            return (sign, 0, 0)
+                        if n.is_call('connection_event_counter'):
+                            return (0, sign, 0)
+                        bb = as_binop(n)
+                        if bb and bb[0] in ('+', '-'):
+                            l, r = flat(bb[1], sign), flat(bb[2], sign if bb[0] == '+' else -sign)
+                            if l is None or r is None:
+                                return None
+                            return (l[0] + r[0], l[1] + r[1], l[2] + r[2])
+                        return None
+                    ks = set()
+                    for c in inst:
+                        for x in deep_walk(c):
+                            bb = as_binop(x)
+                            if bb and bb[0] == '&' and cval(bb[2]) == 0x8000:
+                                f = flat(bb[1])
+                                ks.add(f[2] if f is not None and f[0] == 1 and f[1] == -1 else '?')
+                    if op in REF and ks and ks != {REF[op]}:
+                        if '?' in ks:
+                            chk.broke('%s: the reference event of the instant test could not be determined (idiom not recognised)' % op)
+                        else:
+                            ok = False
+                            why = 'the instant test of %s is (instant - connEventCount + %s) instead of + %d: an instant that is still ahead (the very next event) is taken for passed and the link is terminated, or a passed one is waited for' % (op, sorted(ks), REF[op])
                 chk.instance('defer-only-if-instant-ahead', fn, '%s: PDU deferred' % op, ok, '' if ok else why, node=st, key=op)
     for op in INSTANT:
         chk.require(op in seen or tier == 'quick' and False, 'no deferral store found for %s' % op)
